@@ -389,6 +389,25 @@ class PandasModel:
             core.ctx().event('call', 'pandas.MultiIndex.from_arrays', arrays)
             return _OpaqueIndex('multiindex', arrays)
 
+    class RangeIndex:
+        """PD-RANGEINDEX: isinstance(index, pandas.RangeIndex). Labels that form an arithmetic progression of integers may be held as a
+        RangeIndex or as a plain integer index - the labels do not tell - so both answers are explored; any other labels: no."""
+        _pyvc_model_class = True
+
+        @staticmethod
+        def _isinstance(x):
+            from .pandas_ import IndexModel
+            if not isinstance(x, IndexModel):
+                return False
+            labels = list(x.labels)
+            if not all(isinstance(v, int) and not isinstance(v, bool) for v in labels):
+                return False
+            steps = {b - a for a, b in zip(labels, labels[1:])}
+            if len(steps) > 1 or 0 in steps:
+                return False
+            core.ctx().lib_used.add('PD-RANGEINDEX')
+            return choice('index_is_held_as_a_RangeIndex')
+
     @staticmethod
     def Series(data=None, index=None, **kw):
         core.ctx().event('call', 'pandas.Series', data, index)
